@@ -134,6 +134,8 @@ class BuiltinsMixin:
         if isinstance(o, GenV):
             if name == "close":
                 return Builtin("gen.close", lambda i, a, k: None)
+        if isinstance(o, (GenV, IterV)) and name not in ("__next__", "__iter__", "send", "throw"):
+            self.raise_py("AttributeError", f"'generator' object has no attribute {name!r}")
         m = self.method_table(o, name)
         if m is not None:
             return m
